@@ -5,7 +5,7 @@
 set -u
 ID=$1; K=$2; DEST=$3; CMD=$4; shift 4
 CHECKS=${@:-$ID}
-SRC=/tmp/seed-out/$ID/$K
+SRC=${SEEDSRC:-/tmp/seed-out}/$ID/$K
 export GOFLAGS=-mod=mod GOPROXY=off GOSUMDB=off GOTOOLCHAIN=local
 M=$(mktemp -d /tmp/seedrun.XXXXXX); C=$(mktemp -d /tmp/seedrun.XXXXXX)
 rsync -a --exclude .git /repo/ $M/; rsync -a --exclude .git /repo/ $C/
